@@ -9,11 +9,11 @@ fn volume_choice() -> (Decibels, f32) {
     match kani::any::<u8>() % 3 { 0 => (Decibels(0.0), 1.0), 1 => (Decibels(-60.0), 0.0), _ => (Decibels(-80.0), 0.0) }
 }
 
-// @ob id=C02.1a,C01.9a strength=bounded tier=quick bound="2 probe sounds (constant dyadic frames), 2 probe effects (x*0.5+1/4 then x*2+1/8), 2 frames, track volume in {0 dB, -60 dB, -80 dB}; incoming bus symbolic dyadic" fn=track/main.rs::MainTrack::process
+// @ob id=C02.1a,C01.9a strength=bounded tier=thorough timeout=10800 bound="2 probe sounds (constant dyadic frames), 2 probe effects (x*0.5+1/4 then x*2+1/8), 2 frames, track volume in {0 dB, -60 dB, -80 dB}; incoming bus symbolic dyadic" fn=track/main.rs::MainTrack::process
 // @req a main track holding two live sounds and two effects; out pre-loaded with the bus signal
 // @ens out[i] = effects_in_order(in[i] + s1 + s2) * amplitude(volume), exactly; every sound and effect is asked exactly once for exactly out.len() frames with the given dt; the scratch buffer is all zero on return and not reallocated
 #[kani::proof]
-#[kani::unwind(6)]
+#[kani::unwind(4)]
 #[kani::stub(f32::powf, powf32_model)]
 fn c02_1a_main_track_signal_flow() {
     let (vol, amp) = volume_choice();
@@ -55,11 +55,11 @@ fn c02_1a_main_track_signal_flow() {
     core::mem::forget(info); core::mem::forget(t); core::mem::forget(h);
 }
 
-// @ob id=C03.7a,C08.4a strength=bounded tier=quick bound="sound capacity 2, two probe sounds, one finishes" fn=track/main.rs::MainTrack::on_start_processing
+// @ob id=C03.7a,C08.4a strength=bounded tier=thorough timeout=10800 bound="sound capacity 2, two probe sounds, one finishes" fn=track/main.rs::MainTrack::on_start_processing
 // @req two live sounds, the first reports finished()
 // @ens after the next on_start_processing the finished sound is gone (it is no longer processed, the count dropped by one and its slot is reusable) and it was NOT dropped by the audio side (it waits in the unused ring until the caller's next insert)
 #[kani::proof]
-#[kani::unwind(6)]
+#[kani::unwind(4)]
 fn c03_7a_finished_sound_is_unloaded_not_dropped() {
     let (mut t, mut h) = MainTrackBuilder::new().sound_capacity(2).build(1);
     h.sound_controller.insert(Box::new(ProbeSound { id: 0, value: Frame::ZERO })).unwrap();
